@@ -19,9 +19,9 @@ use std::borrow::Cow;
 pub const SPEC: PropSpec = PropSpec {
     id: "C09",
     level: "exploration",
-    rule: "Cases = sequences of builder calls (BytesStart::new / from_content followed by any edits push_attribute with (&str,&str) / (&str,Cow) / pre-escaped (&[u8],&[u8]) / Attribute, extend_attributes, with_attributes, clear_attributes, set_name; to_end; BytesEnd::new; BytesText::new and from_escaped; BytesCData::escaped (all pieces) and BytesCData::new for ']]>'-free content; comments via BytesText::new; BytesPI::new; BytesDecl::new over version x encoding x standalone; DocType; write_bom first; create_element(..).with_attribute(s)..write_{text,cdata,pi}_content / write_empty / write_inner_content) with payload strings from a hostile pool (both quotes, '<', '>', '&', ']]>', ']]]]>>', '--', '?>', leading/trailing/inner whitespace incl. TAB/LF/CR, entity look-alikes, NUL, non-ASCII, long strings). Every sequence is written through Writer::write_event, write_event_async, the ElementWriter sync methods and the ElementWriter async methods; the byte strings must be equal. The bytes are read back under the neutral configuration and compared with the model of the calls (adjacent texts coalesced, empty texts dropped, adjacent CDATA pieces coalesced): element and attribute names, unescaped attribute values, unescaped text and comment content, raw CDATA / PI content, declaration fields. Exhaustive over a 16-kind call alphabet up to length 3 (payloads chosen per position by the seed); random sequences up to length 6/12. Non-trivial = at least one payload contains a markup-significant character or an edit was applied between construction and writing.",
+    rule: "Cases = sequences of builder calls (BytesStart::new / from_content followed by any edits push_attribute with (&str,&str) / (&str,Cow) / pre-escaped (&[u8],&[u8]) / Attribute, extend_attributes, with_attributes, clear_attributes, set_name; to_end; BytesEnd::new; BytesText::new and from_escaped; BytesCData::escaped (all pieces) and BytesCData::new for ']]>'-free content; comments via BytesText::new; BytesPI::new; BytesDecl::new over version x encoding x standalone; DocType; write_bom first; create_element(..).with_attribute(s)..write_{text,cdata,pi}_content / write_empty / write_inner_content) with payload strings from a hostile pool (both quotes, '<', '>', '&', ']]>', ']]]]>>', '--', '?>', leading/trailing/inner whitespace incl. TAB/LF/CR, entity look-alikes, NUL, non-ASCII, long strings). Every sequence is written through Writer::write_event, write_event_async, the ElementWriter sync methods and the ElementWriter async methods; the byte strings must be equal; element-builder calls are additionally written on an indenting writer with new_line() between attributes and must read back with the same name, attributes and content. The bytes are read back under the neutral configuration and compared with the model of the calls (adjacent texts coalesced, empty texts dropped, adjacent CDATA pieces coalesced): element and attribute names, unescaped attribute values, unescaped text and comment content, raw CDATA / PI content, declaration fields. Exhaustive over a 16-kind call alphabet up to length 3 (payloads chosen per position by the seed); random sequences up to length 6/12. Non-trivial = at least one payload contains a markup-significant character or an edit was applied between construction and writing.",
     assumptions: &["documented preconditions are respected by the generator: names are XML names, comment content has no '--' and does not end in '-', PI content has no '?>' and its target is not 'xml', BytesCData::new content has no ']]>', pre-escaped values are produced by escape(), attribute keys are unique per element, declared encodings are UTF-8"],
-    required: &["calls.StartNew", "calls.StartFromContent", "calls.End", "calls.Empty", "calls.TextNew", "calls.TextFromEscaped", "calls.CDataEscaped", "calls.CDataNew", "calls.Comment", "calls.PI", "calls.Decl", "calls.ElemText", "calls.ElemCData", "calls.ElemPI", "calls.ElemEmpty", "calls.ElemInner", "edits.SetName", "edits.Clear", "edits.PushBytes", "edits.Extend", "edits.With", "cdata_splits", "async_bytes_compared", "attr_values_compared"],
+    required: &["calls.StartNew", "calls.StartFromContent", "calls.End", "calls.Empty", "calls.TextNew", "calls.TextFromEscaped", "calls.CDataEscaped", "calls.CDataNew", "calls.Comment", "calls.PI", "calls.Decl", "calls.ElemText", "calls.ElemCData", "calls.ElemPI", "calls.ElemEmpty", "calls.ElemInner", "edits.SetName", "edits.Clear", "edits.PushBytes", "edits.Extend", "edits.With", "cdata_splits", "async_bytes_compared", "attr_values_compared", "builder_indented_with_new_line"],
     run,
     replay,
     thorough_layers: &[],
@@ -397,6 +397,7 @@ pub struct Local {
     attr_vals: u64,
     texts: u64,
     bytes_written: u64,
+    builder_newlines: u64,
 }
 
 fn count_calls(calls: &[Call], loc: &mut Local) {
@@ -548,6 +549,8 @@ pub fn check(calls: &[Call], loc: &mut Local) -> Result<(), String> {
     if b1 != b4 {
         return Err(format!("the async ElementWriter path produced {:?} but write_event produced {:?}", show(&b4), show(&b1)));
     }
+    // path 5: the element builder on an indenting writer, with new_line() between attributes
+    check_builder_indented(calls, loc)?;
     // read back
     let mut m = Vec::new();
     model_of(calls, &mut m);
@@ -572,6 +575,68 @@ pub fn check(calls: &[Call], loc: &mut Local) -> Result<(), String> {
             got.get(i),
             show(&b1)
         ));
+    }
+    Ok(())
+}
+
+/// `create_element(..).with_attribute(..).new_line().with_attribute(..)` on an indenting writer: the
+/// attribute list may be broken over lines, but the element read back must carry the same name,
+/// the same attributes with the same values and the same content.
+fn check_builder_indented(calls: &[Call], loc: &mut Local) -> Result<(), String> {
+    let elems: Vec<&Call> = calls.iter().filter(|c| matches!(c, Call::Elem { content, .. } if !matches!(content, Content::Inner(_)))).collect();
+    if elems.is_empty() {
+        return Ok(());
+    }
+    for indent in [(b' ', 2usize), (b'\t', 1usize)] {
+        let mut w = Writer::new_with_indent(Vec::new(), indent.0, indent.1);
+        let mut want: Vec<M> = Vec::new();
+        for (n, c) in elems.iter().enumerate() {
+            if let Call::Elem { name, attrs, content, .. } = c {
+                let mut ew = w.create_element(name.as_str());
+                for (i, (k, v)) in attrs.iter().enumerate() {
+                    if (i + n) % 2 == 1 {
+                        ew = ew.new_line();
+                    }
+                    ew = ew.with_attribute((k.as_str(), v.as_str()));
+                }
+                if attrs.len() > 1 {
+                    loc.builder_newlines += 1;
+                }
+                match content {
+                    Content::Empty => {
+                        ew.write_empty().map_err(io_err)?;
+                        want.push(M::Empty(name.clone(), attrs.clone()));
+                    }
+                    Content::Text(t) => {
+                        ew.write_text_content(BytesText::new(t)).map_err(io_err)?;
+                        want.push(M::Start(name.clone(), attrs.clone()));
+                        want.push(M::Text(t.clone()));
+                        want.push(M::End(name.clone()));
+                    }
+                    Content::CData(t) => {
+                        ew.write_cdata_content(BytesCData::new(t.as_str())).map_err(io_err)?;
+                        want.push(M::Start(name.clone(), attrs.clone()));
+                        want.push(M::CData(t.clone()));
+                        want.push(M::End(name.clone()));
+                    }
+                    Content::PI(t) => {
+                        ew.write_pi_content(BytesPI::new(t.as_str())).map_err(io_err)?;
+                        want.push(M::Start(name.clone(), attrs.clone()));
+                        want.push(M::PI(t.clone()));
+                        want.push(M::End(name.clone()));
+                    }
+                    Content::Inner(_) => unreachable!(),
+                }
+            }
+        }
+        let bytes = w.into_inner();
+        let ws_only = |m: &M| matches!(m, M::Text(t) if t.chars().all(|c| matches!(c, ' ' | '\t' | '\n' | '\r')));
+        let got: Vec<M> = normalize(read_back(&bytes, loc).map_err(|e| format!("element builder on an indenting writer: {} (bytes {:?})", e, show(&bytes)))?).into_iter().filter(|m| !ws_only(m)).collect();
+        let want: Vec<M> = normalize(want).into_iter().filter(|m| !ws_only(m)).collect();
+        if want != got {
+            let i = (0..want.len().max(got.len())).find(|&i| want.get(i) != got.get(i)).unwrap_or(0);
+            return Err(format!("element builder on an indenting writer: event {}: built {:?} but read back {:?} (written bytes {:?})", i, want.get(i), got.get(i), show(&bytes)));
+        }
     }
     Ok(())
 }
@@ -830,6 +895,7 @@ fn flush(ctx: &mut Ctx, loc: &Local) {
     ctx.add("attr_values_compared", loc.attr_vals);
     ctx.add("texts_read_back", loc.texts);
     ctx.add("bytes_written", loc.bytes_written);
+    ctx.add("builder_indented_with_new_line", loc.builder_newlines);
 }
 
 fn replay(case: &Value, _ctx: &mut Ctx) -> Option<String> {
